@@ -62,7 +62,8 @@ class CollapseTag(Tag):
 
     def configure(self, characters: str = " "):  # type: ignore
         # TODO: check characters for empty string?
-        self.pattern = re.compile(f"(?<=[{characters}])[{characters}]+")
+        character_class = re.escape(characters)
+        self.pattern = re.compile(f"(?<=[{character_class}])[{character_class}]+")
 
     def process(self, file: File, context: Optional[str]) -> str:
         assert context is not None
